@@ -35,11 +35,13 @@ def _box_size(vals):
 
 def compare(op, impl, model):
     """Derived tolerances (eps = 2^-24, the unit round-off of the implementation's `float`):
-    * exact (integer data, every intermediate < 2^24): conv1 conv1ip csym csymip conv2 conv3 sep sepnull sci scic; p2a (copies/conjugates)
+    * exact (integer data, every intermediate < 2^24): conv1 conv1ip csym csymip conv2 conv2ip conv3 conv3ip sep sepnull sepoo sci scic; p2a (copies/conjugates);
+      rng (index ranges and is_trivial flags) and padr (accepted? padded sizes) are compared as text
     * fft / rfft : |impl - model| <= 16 (log2 N + 2) eps sqrt(N) ||x||_2  per component (FFT forward error bound, N = number of points)
     * ifft / irfft: |impl - model| <= 16 (log2 N + 2) eps ||input||_2 / sqrt(N) ... stated on the input of the inverse
     * the same bounds against the DFT evaluated by its definition at the sampled frequencies
-    * dftf: |impl - exact circular convolution| <= 32 (log2 L + 2) eps ||k||_1 ||x||_2  (three transforms + product)
+    * dftf dftfip dftfq: |impl - exact circular convolution| <= 32 (log2 L + 2) eps ||k||_1 ||x||_2  (three transforms + product)
+    * dftfh (arbitrary kernel H in frequency space): |impl - binary64 model of the same transforms| <= 32 (log2 L + 2) eps max|H| ||x||_2
     * gauss: relative 16 eps (+1e-30): kernel coefficients are float-rounded values of double expressions; libm differences
     * metz: |impl - model| <= 5e-4 max|kernel| : the implementation runs two float FFTs of 2^14..2^15 points (measured noise up to 4e-5 of the peak)
       and drops trailing coefficients below 1e-4 of the peak, so a coefficient of up to ~1.5e-4 may be kept by one side and dropped by the other"""
@@ -51,17 +53,19 @@ def compare(op, impl, model):
     # Classes of the two known findings: the model transcribes the behaviour of the code as it is and ALSO gives (after " | ")
     # the behaviour the property demands, so that a repaired library still corresponds (the oracle, not the correspondence,
     # reports the defect while it exists).
-    if kind in ("irfft", "dftf") and model.startswith("err | "):
+    if kind == "padr" and " | " in model:
+        return impl in model.split(" | ")
+    if kind in ("irfft", "dftf", "dftfip", "dftfq") and model.startswith("err | "):
         if impl == "err":
             return True
         model = model[len("err | "):]
-    if kind in ("conv2", "conv3") and " | " in model:
+    if kind in ("conv2", "conv3", "conv2ip", "conv3ip") and " | " in model:
         return any(compare(op, impl, m) for m in model.split(" | "))
     if impl == "err" or model == "err":
         return False
     try:
         t = op.split()
-        if kind in ("conv1", "conv1ip", "csym", "csymip", "conv2", "conv3", "sep", "sepnull", "sci", "scic"):
+        if kind in ("conv1", "conv1ip", "csym", "csymip", "conv2", "conv3", "conv2ip", "conv3ip", "sep", "sepnull", "sepoo", "sci", "scic"):
             return [_num(x) for x in impl.split()] == [float(int(x)) for x in model.split()]
         if kind == "p2a":
             return [_num(x) for x in impl.split()] == [_bits(x) for x in model.split()]
@@ -90,9 +94,21 @@ def compare(op, impl, model):
                     if abs(iv[2 * f] - _bits(re)) > tol or abs(iv[2 * f + 1] - _bits(im)) > tol:
                         return False
             return True
-        if kind == "dftf":
+        if kind == "dftfh":
             d = int(t[1])
-            ki, xi, oi = _section(t, "K"), _section(t, "X"), _section(t, "O")
+            hi, xi, oi = _section(t, "H"), _section(t, "X"), _section(t, "O")
+            hb = [int(x) for x in t[hi + 1:hi + 1 + 2 * d]]
+            hv = [int(x) for x in t[hi + 1 + 2 * d:xi]]
+            xv = [int(x) for x in t[xi + 1 + 2 * d:oi]]
+            hb[-1] = 2 * hb[-1] - 1  # padded length of the last dimension
+            L = _box_size(hb)
+            hmax = max([math.hypot(a, b) for a, b in zip(hv[0::2], hv[1::2])] + [0.0])
+            tol = 32 * (math.log2(max(L, 1)) + 2) * EPS * hmax * math.sqrt(sum(x * x for x in xv)) + 1e-30
+            return _close([_num(x) for x in impl.split()], [_bits(x) for x in model.split()], tol)
+        if kind in ("dftf", "dftfip", "dftfq"):
+            d = int(t[1])
+            ki, xi = _section(t, "K"), _section(t, "X")
+            oi = _section(t, "O") if kind != "dftfip" else len(t)
             kb = [int(x) for x in t[ki + 1:ki + 1 + 2 * d]]
             kv = [int(x) for x in t[ki + 1 + 2 * d:xi]]
             xv = [int(x) for x in t[xi + 1 + 2 * d:oi]]
@@ -125,18 +141,28 @@ def main(tier, replay):
     stats = vlib.run_differential(chk, PROP, "c19_fourier_filters", tier, compare=compare)
     vlib.standard_coverage(chk, stats,
         "real fourier / inverse_fourier / fourier_for_real_data / inverse_fourier_for_real_data / pos_frequencies_to_all on all power-of-two "
-        "lengths 1..128 (thorough 1..1024), 1-3 dimensions, both signs, random / impulse / constant / integer data, plus non-power-of-two error branches; "
-        "ArrayFilter1DUsingConvolution (zero/constant/periodic, 1- and 2-argument call), ...SymmetricKernel, ArrayFilter2D/3DUsingConvolution, "
-        "ArrayFilterUsingRealDFTWithPadding<1..3>, SeparableArrayFunctionObject<3>, SeparableConvolutionImageFilter (parsed), SeparableGaussianArrayFilter, "
-        "SeparableMetzArrayFilter with random integer kernels/inputs of arbitrary index ranges. One line per operation compared with the Lean model: "
-        "exactly for integer-data convolutions and pos_frequencies_to_all; transforms against BOTH the transcribed butterfly model and the DFT by its "
-        "definition (all frequencies if <= 64 points, else 24 sampled) within 16(log2 N+2) 2^-24 sqrt(N) ||x||_2; padded-DFT filter against the exact circular "
-        "convolution within 32(log2 L+2) 2^-24 ||k||_1 ||x||_2; Gaussian kernels within 16 ulp(float). Oracle on the implementation alone: inversion, "
-        "real-vs-complex agreement, impulse, Parseval, filter == definition sum_j k_j in_{i-j}, DFT route == direct route when no wrap-around is possible, "
-        "separable == successive 1-D filters in all 6 axis orders, Gaussian/Metz kernel sums and mean preservation on locally constant data.")
+        "lengths 1..128 plus two data sets each at 256, 512, 1024 (thorough: all kinds at 1..1024), 1-3 dimensions, both signs, random / impulse / constant / integer data, plus "
+        "non-power-of-two error branches; ArrayFilter1DUsingConvolution (zero/constant/periodic, 1- and 2-argument call), ...SymmetricKernel, ArrayFilter2D/3DUsingConvolution "
+        "(2-argument call, in-place operator(), default-constructed object), ArrayFilterUsingRealDFTWithPadding<1..3> built from a spatial kernel (2-argument and in-place call), from "
+        "fourier_for_real_data(kernel) through the frequency-space constructor and through set_kernel_in_frequency_space (op dftfq), and from an arbitrary complex kernel H (op dftfh); "
+        "set_padding_range's accept/reject decision and padding range (op padr: 0-based / shifted / irregular index ranges, non-power-of-two sizes; the private range is observed as the "
+        "period of the identity filter H = 1); get_influencing_indices / get_influenced_indices / is_trivial of the 1-D, 2-D, 3-D convolution classes and the Succeeded::no default of the "
+        "symmetric-kernel and DFT classes (op rng, one per convolution case); SeparableArrayFunctionObject<3>, SeparableConvolutionImageFilter (parsed and constructed), "
+        "SeparableGaussianArrayFilter (FWHM 0, 1e-5..8 sampling distances, max_kernel_size -1 / 1..21 / 0 = documented error), SeparableMetzArrayFilter with random integer kernels/inputs of arbitrary "
+        "index ranges. One line per operation compared with the Lean model: exactly for integer-data convolutions, index ranges, padding ranges and pos_frequencies_to_all; transforms against "
+        "BOTH the transcribed butterfly model and the DFT by its definition (all frequencies if <= 64 points, else 24 sampled) within 16(log2 N+2) 2^-24 sqrt(N) ||x||_2; padded-DFT filter "
+        "(all ways of building / calling it) against the exact circular convolution within 32(log2 L+2) 2^-24 ||k||_1 ||x||_2, with an arbitrary spectrum H against the binary64 model of the "
+        "same transforms within 32(log2 L+2) 2^-24 max|H| ||x||_2; Gaussian kernels within 16 ulp(float). Oracle on the implementation alone: inversion, real-vs-complex agreement, impulse, "
+        "Parseval, filter == definition sum_j k_j in_{i-j} (also in place), DFT route == direct route when no wrap-around is possible, frequency-space-built filter == spatial-kernel-built "
+        "filter, in-place == out-of-place, frequency-space index ranges not starting at 0 or irregular are rejected by set_kernel_in_frequency_space and the constructor alike, output outside "
+        "get_influenced_indices(input range) == boundary-condition value, changing input outside get_influencing_indices(output range) leaves the output unchanged, separable == successive "
+        "1-D filters in all 6 axis orders, apply_array_functions_on_each_index (out-of-place separable route that consumes get_influencing_indices; oracle only) == 3-D convolution with the "
+        "outer-product kernel, Gaussian/Metz kernel sums (normalised Gaussian == 1 also for automatic lengths and narrow FWHM) and mean preservation on locally constant data.")
     chk.assumptions += ["32-bit overflow not modelled", "float rounding of the transforms is bounded, not modelled (binary64 model)",
                         "real-data packing trick and n-D recursion of the transforms are checked by correspondence, not proved (the 1-D convolution theorem for the DFT by its definition is proved)",
-                        "Metz kernels: model at binary64, compared within 5e-4 of the kernel peak"]
+                        "Metz kernels: model at binary64, compared within 5e-4 of the kernel peak",
+                        "get_influencing/influenced_indices of the 2-D/3-D classes concern the outer index only (as coded); soundness of the reported ranges is proved for the model of each class, tightness only for 1-D",
+                        "apply_array_functions_on_each_index is exercised by an oracle only (non-trivial zero-boundary filters, influencing range meeting the input range); MedianArrayFilter3D / MinimalArrayFilter3D / MaximalArrayFilter3D are not named by the property and not exercised"]
     if audit:
         vlib.proof_coverage(chk, audit, "cd lean && lake build StirVerif stirdriver && lake env lean ../build/out/Audit_C19.lean")
     return chk.finish()
